@@ -251,3 +251,10 @@ def exhaustive8(ops, gen_zs=None):
 def parse_L(tok):
     body = tok[2:]
     return [int(x, 16) for x in body.split(",")] if body else []
+
+
+def run_translator(root, name):
+    """runs tools/<name> (a source -> Gallina translator); returns None on success, else its error text"""
+    import subprocess, sys, os
+    p = subprocess.run([sys.executable, os.path.join(root, "tools", name)], stdout=subprocess.PIPE, stderr=subprocess.STDOUT)
+    return None if p.returncode == 0 else p.stdout.decode("utf-8", "replace")[-500:]
